@@ -24,7 +24,7 @@ use crate::common::*;
 use coupe::Partition as _;
 use coupe::{Point2D, Point3D};
 
-const WATCHDOG_S: u64 = 20;
+const WATCHDOG_S: u64 = 60;
 const UNWRITTEN: usize = usize::MAX;
 
 // ------------------------------------------------------------------ helpers
